@@ -49,6 +49,9 @@ def units(tier):
     us.append({"shape": "obj"})
     us.append({"shape": "list"})
     us.append({"shape": "names"})
+    for op1 in FLOAT_OPS:
+        us.append({"shape": "floats", "op1": op1})
+    us.append({"shape": "slices"})
     if tier == "thorough":
         for op1 in D3OPS:
             for op2 in D3OPS:
@@ -304,6 +307,21 @@ def run_unit(unit, tier):
         return run_list(r)
     if unit["shape"] == "names":
         return run_names(r)
+    if unit["shape"] == "slices":
+        return run_slices(r)
+    if unit["shape"] == "floats":
+        # operators are not associative on floats: every two-operator tree over the arithmetic operators on float contexts
+        cs = [(c,) + mk_ctx(c) for c in [{"a": a, "b": b, "c": c_} for a in FLOATS for b in FLOATS for c_ in FLOATS]]
+        seen = set()
+        for op2 in FLOAT_OPS:
+            for t in trees_for({"shape": "bin2", "op1": unit["op1"], "op2": op2}, tier):
+                key = jkey(t)
+                if key in seen or not X.has_expr(t) or _has_nonnumeric_const(t):
+                    continue
+                seen.add(key)
+                check_tree(t, cs, r)
+        r.sample({"tree": "float contexts, op1=%s x %s" % (unit["op1"], FLOAT_OPS), "contexts": len(cs)})
+        return r
     seen = set()
     for t in trees_for(unit, tier):
         key = jkey(t)
@@ -315,6 +333,51 @@ def run_unit(unit, tier):
         check_tree(t, cs, r)
         if len(r.samples) < 2:
             r.sample({"tree": X.show(t), "contexts": len(cs)})
+    return r
+
+
+FLOAT_OPS = ["+", "-", "*", "/"]
+FLOATS = [0.1, 0.2, 0.3, 1e16, -1e16, 1.0, -0.0, 3, 1e308]
+
+
+def _has_nonnumeric_const(t):
+    if t[0] == "k":
+        return not isinstance(t[1], (int, float)) or isinstance(t[1], bool)
+    return any(_has_nonnumeric_const(x) for x in t[1:] if isinstance(x, list))
+
+
+def run_slices(r):
+    """item paths with slice subscripts: every combination of start/stop/step over {None, 0, 1, 2, -1} on bytes, list and str
+    members, evaluated and printed (eval(repr) must give the same function), bare and inside an operator"""
+    import construct as C
+    vals = [None, 0, 1, 2, -1]
+    data = {"data": b"abcde", "lst": [10, 11, 12, 13], "s": "wxyz"}
+    ctx = C.Container(data=data["data"], lst=C.ListContainer(data["lst"]), s=data["s"], _=C.Container(data=b"XY"))
+    env = {"this": C.this, "obj_": C.obj_, "list_": C.list_, "len_": C.len_}
+    for name in data:
+        for a in vals:
+            for b in vals:
+                for st in (None, 1, 2, -1):
+                    sl = slice(a, b, st)
+                    want = ("ok", data[name][sl])
+                    forms = [("this.%s[%r:%r:%r]" % (name, a, b, st), C.this[name][sl], want),
+                             ("len_(this.%s[%r:%r:%r])" % (name, a, b, st), C.len_(getattr(C.this, name)[sl]), ("ok", len(data[name][sl])))]
+                    if name == "data":
+                        forms.append(("this._.data[...]", C.this._.data[sl], ("ok", b"XY"[sl])))
+                    for label, e, w in forms:
+                        r.states += 1
+                        subject = ctx if "_.data" not in label else C.Container(_=ctx["_"])
+                        got = outcome(lambda: e(subject))
+                        r.case(nontrivial=True, outcome="slices", transitions=2, validated=2)
+                        case = {"slices": [name, a, b, st], "form": label}
+                        if (got[0], list(got[1]) if isinstance(got[1], list) else got[1]) != (w[0], list(w[1]) if isinstance(w[1], list) else w[1]):
+                            r.violation("C11/slices/call-differs", case, "%s gives %r, plain slicing %r" % (label, got, w))
+                            continue
+                        rp = repr(e)
+                        ev = outcome(lambda: eval(rp, dict(env))(subject))
+                        if (ev[0], list(ev[1]) if isinstance(ev[1], list) else ev[1]) != (w[0], list(w[1]) if isinstance(w[1], list) else w[1]):
+                            r.violation("C11/slices/repr-differs", case, "repr(%s) = %s evaluates to %r, expected %r" % (label, rp, ev, w))
+    r.sample({"tree": "slice subscripts", "bounds": vals, "members": list(data)})
     return r
 
 
